@@ -128,7 +128,7 @@ func (c *Ctx) TLC(o TLCOpts) (*TLCResult, error) {
 	if o.HeapMB == 0 {
 		o.HeapMB = 4096
 	}
-	args := []string{"-XX:+UseParallelGC", fmt.Sprintf("-Xmx%dm", o.HeapMB), "-Xss64m"}
+	args := []string{"-XX:+UseParallelGC", fmt.Sprintf("-Xmx%dm", o.HeapMB), "-Xss64m", "-Djava.io.tmpdir=" + dir}
 	if o.DFS {
 		args = append(args, "-Dtlc2.tool.queue.IStateQueue=StateDeque")
 	}
